@@ -1286,9 +1286,13 @@ func (pc *PeerConnection) SetRemoteDescription(desc SessionDescription) error {
 			}
 
 			kind := NewRTPCodecType(media.MediaName.Media)
-			direction := getPeerDirection(media)
-			if kind == 0 || direction == RTPTransceiverDirectionUnknown {
+			if kind == 0 {
 				continue
+			}
+			direction := getPeerDirection(media)
+			if direction == RTPTransceiverDirectionUnknown {
+				// sendrecv is the default when no direction attribute is present (RFC 3264 Section 5.1)
+				direction = RTPTransceiverDirectionSendrecv
 			}
 
 			transceiver, localTransceivers = findByMid(midValue, localTransceivers)
@@ -3087,9 +3091,13 @@ func (pc *PeerConnection) generateMatchedSDP(
 		}
 
 		kind := NewRTPCodecType(media.MediaName.Media)
-		direction := getPeerDirection(media)
-		if kind == 0 || direction == RTPTransceiverDirectionUnknown {
+		if kind == 0 {
 			continue
+		}
+		direction := getPeerDirection(media)
+		if direction == RTPTransceiverDirectionUnknown {
+			// sendrecv is the default when no direction attribute is present (RFC 3264 Section 5.1)
+			direction = RTPTransceiverDirectionSendrecv
 		}
 
 		sdpSemantics := pc.configuration.SDPSemantics
